@@ -375,7 +375,7 @@ func judge(c *core.Ctx, evs []*Event) (accepted bool, per map[int][]core.Mismatc
 	for _, e := range evs {
 		byK[e.K] = e
 	}
-	exp := c.TLC(tlc.Opts{Module: "Trace_Layout", Files: files, Config: jcfg(false)}, true)
+	exp := c.TLC(tlc.Opts{Module: "Trace_Layout", Files: files, Config: jcfg(false), Timeout: 40 * time.Minute}, true)
 	for _, p := range exp.Lines {
 		var x explain
 		if err := json.Unmarshal(p, &x); err != nil || byK[x.K] == nil {
@@ -501,6 +501,9 @@ func (d Driver) Run(c *core.Ctx) error {
 			defer func() { <-sem }()
 			if o.Workers == 0 {
 				o.Workers = 6
+			}
+			if o.Timeout == 0 {
+				o.Timeout = 30 * time.Minute // generous: a shared machine must not turn into a machinery failure
 			}
 			seq(o)
 		}()
